@@ -26,17 +26,13 @@ class CurveFit:
 
     @classmethod
     def fitCurve(self, data, error, cornerTolerance, maxSegments):
-        # We want to uniqify the points but maintaining order
-        # (so we can't use a set). An ordered set would be too heavy for this.
-        keys = {}
-
-        def filterSeen(x):
-            if hash(x) in keys:
-                return False
-            keys[hash(x)] = 1
-            return True
-
-        data = list(filter(filterSeen, data))
+        # Drop consecutive duplicates only: a point may legitimately recur
+        # later on, e.g. when a stroke closes on itself
+        uniq = []
+        for x in data:
+            if not uniq or uniq[-1].x != x.x or uniq[-1].y != x.y:
+                uniq.append(x)
+        data = uniq
         if len(data) < 2:
             return
         return self._fitCurve(data, None, None, error, cornerTolerance, maxSegments)
